@@ -105,7 +105,29 @@ def run(ctx):
     R.check("C09-D1g action value is the enum", cfg_conv, "configuration value", mod=init_.module, node=init_.node, function=ctx.fq(init_),
             expected="SignatureAlreadyPresentActions(envelope_json['already-signed-action'])", found="configuration text stored without conversion")
     R.rule("C09-D1b detection", 2, "an authentication block is a byte string that decodes to tag 18")
-    loops = [e for e in eff if isinstance(e, App) and e.op == "eff:loop"]
+    def all_loops(effs):
+        out_ = []
+        for e_ in effs:
+            if isinstance(e_, App) and e_.op == "eff:loop":
+                out_.append(e_)
+                out_ += all_loops(e_.args[1].args)
+            elif isinstance(e_, App) and e_.op == "eff:if":
+                out_ += all_loops(e_.args[1].args) + all_loops(e_.args[2].args)
+            elif isinstance(e_, App) and e_.op in ("eff:alts", "eff:partial"):
+                for a_ in e_.args:
+                    out_ += all_loops(a_.args if isinstance(a_, App) else [])
+        return out_
+    loops = all_loops(eff)
+    if not loops:
+        raise AnalysisError(f"{fq}: no loop over the authentication wrapper recognised (the search is written in a form the rules cannot follow)")
+    # the rules below reason about "for each block: if it is a signature: act on it": the action effects must sit in the body of that
+    # loop.  A search that only finds the block, with the actions after the loop, is another (equally valid) form they cannot follow
+    in_loop_acts = [e_ for lp_ in loops for e_ in all_effects(lp_.args[1].args) if isinstance(e_, App) and (
+        (e_.op == "eff:setattr" and e_.args[1] == Const("_skip_signing")) or
+        (e_.op == "eff:call" and isinstance(e_.args[0], App) and e_.args[0].op == "meth:remove"))]
+    if not in_loop_acts:
+        raise AnalysisError(f"{fq}: the already-signed actions are not performed inside the loop over the authentication wrapper "
+                            f"(search-then-act form): not a form the rules can follow")
     det_ok = len(loops) == 1 and loops[0].args[0] == wrapper
     R.check("C09-D1b detection", det_ok, "every element of the authentication wrapper is examined", mod=asa.module, node=asa.node,
             function=fq, expected="for auth in cbor2.loads(envelope.value[2])", found=repr(loops[0].args[0])[:160] if loops else "no loop")
@@ -113,7 +135,8 @@ def run(ctx):
     dec = App("cborload", (el,))
     tagtest = App("and", (App("isinstance", (dec, Ref("ext", "cbor2.CBORTag"))), App("==", (App("attr:tag", (dec,)), Const(18)))))
     has_test = any(tagtest in [strip_sites(c) for c in o.conds] for o in raises) or any(
-        g == tagtest for e, gs in _with_guards(eff) for g, _ in gs)
+        g == tagtest for e, gs in _with_guards(eff) for g, _ in gs) or any(
+        s_ == tagtest for o in outs for t_ in list(o.conds) + [strip_sites(x) for x in all_effects(o.effects)] for s_ in subterms(strip_sites(t_)))
     R.check("C09-D1b detection", has_test, "signature = CBORTag with tag 18 inside a byte string", mod=asa.module, node=asa.node,
             function=fq, expected="isinstance(decoded, CBORTag) and decoded.tag == 18", found="test not recognised")
 
